@@ -77,18 +77,18 @@ def maxLen (h : List (List Rat)) : Nat := (h.map List.length).foldl max 0
 def ceilDiv (a b : Nat) : Nat := (a + b - 1) / b
 
 /-- `histogram_data`: the sector lists, cut to `frequency_maximum` values when the assigned number
-    of compass intervals is below the number the data needs.  With the default `frequency_hours`
-    (the float 200.0) the cut is a slice with a float bound: TypeError (known finding
-    C17-windrose-default-hours-cut).  `frequency_hours = 0` cannot be assigned (asserted > 0; a value
-    in (0, 1), which `int()` would turn into 0, is outside the modelled histories). -/
+    of compass intervals is below the number the data needs.  The bound of the cut is
+    `int(frequency_maximum)` (fixes/C17_windrose_default_hours_cut.patch): with the default
+    `frequency_hours` (the float 200.0) the sectors are cut to `intervals * 200` values like with any
+    assigned number of hours (before the repair that slice had a float bound and raised TypeError).
+    `frequency_hours = 0` cannot be assigned (asserted > 0; a value in (0, 1), which `int()` would turn
+    into 0, is outside the modelled histories).  The result type stays `Except` (the reads built on it
+    keep their shape); `cutHist_ok` in Props/C17.lean shows that it never is an error. -/
 def cutHist (h : List (List Rat)) (fh ic : Option Nat) : Except OErr (List (List Rat)) :=
   match ic with
   | none => .ok h
   | some k =>
-    if k < ceilDiv (maxLen h) (fh.getD 200) then
-      match fh with
-      | none => .error .type
-      | some f => .ok (h.map (·.take (k * f)))
+    if k < ceilDiv (maxLen h) (fh.getD 200) then .ok (h.map (·.take (k * fh.getD 200)))
     else .ok h
 
 /-- Everything C17 speaks about, as a function of the slots computed in `__init__` and the settings. -/
